@@ -188,6 +188,51 @@ func execTuple(r *Rec, form string, v tupleVec) {
 	})
 }
 
+// sliceInputs: vm_stk_slice#04 cell:^Cell st_bits:(## 10) end_bits:(## 10) { st_bits <= end_bits } st_ref:(#<= 4)
+// end_ref:(#<= 4) { st_ref <= end_ref } with the window at, inside and beyond the bounds of the referenced cell, and
+// with the two orderings violated. The class names the first bound the window breaks ("ok" when it breaks none).
+func sliceInputs() (out []struct {
+	class string
+	root  *node
+}) {
+	for _, cb := range []int{0, 8, 1023} {
+		for _, k := range []int{0, 2, 4} {
+			cell := &node{bits: strings.Repeat("10", cb/2) + strings.Repeat("1", cb%2)}
+			for i := 0; i < k; i++ {
+				cell.refs = append(cell.refs, &node{bits: bitsOf(uint64(i), 8)})
+			}
+			for _, w := range [][2]int{{0, 0}, {0, cb}, {0, cb + 1}, {0, 2 * cb}, {0, cb + 8}, {cb, cb}, {cb + 1, cb + 1}, {5, 3}, {0, 1023}, {cb, 1023}} {
+				for _, rw := range [][2]int{{0, 0}, {0, k}, {0, k + 1}, {k, k}, {k + 1, k + 1}, {2, 1}, {0, 4}} {
+					if w[0] > 1023 || w[1] > 1023 || rw[0] > 4 || rw[1] > 4 {
+						continue
+					}
+					class := "ok"
+					switch {
+					case w[0] > w[1]:
+						class = "st_bits>end_bits"
+					case w[1] > cb && w[0] <= cb:
+						class = "end_bits>cell"
+					case w[0] > cb:
+						class = "st_bits>cell"
+					case rw[0] > rw[1]:
+						class = "st_ref>end_ref"
+					case rw[1] > k && rw[0] <= k:
+						class = "end_ref>cell"
+					case rw[0] > k:
+						class = "st_ref>cell"
+					}
+					v := &node{bits: byteBits(4) + bitsOf(uint64(w[0]), 10) + bitsOf(uint64(w[1]), 10) + bitsOf(uint64(rw[0]), 3) + bitsOf(uint64(rw[1]), 3), refs: []*node{cell}}
+					out = append(out, struct {
+						class string
+						root  *node
+					}{"slice:" + class, v})
+				}
+			}
+		}
+	}
+	return out
+}
+
 // DriveTuples feeds the vectors of VmTuple_Gen to the three decoders a tuple can arrive at.
 func DriveTuples(w *ev.Writer, o Opts) error {
 	r := NewRec(w, o)
@@ -209,6 +254,14 @@ func DriveTuples(w *ev.Writer, o Opts) error {
 		for _, form := range []string{"value", "stack", "tl", "read:struct", "read:slice", "read:list", "read:body"} {
 			execTuple(r, form, v)
 		}
+	}
+	// stack entries that are windows into a cell, as a value and as the only entry of a stack
+	d := &tlbDrv{r: r, asts: map[string]any{}, quota: map[string]int{}}
+	tv, ts := reflect.TypeOf(tlb.VmStackValue{}), reflect.TypeOf(tlb.VmStack{})
+	for i, in := range sliceInputs() {
+		d.decode("tlb.VmStackValue", tv, in.class, in.root, nil, i%2 == 1)
+		st := &node{bits: bitsOf(1, 24) + in.root.bits, refs: append([]*node{{}}, in.root.refs...)}
+		d.decode("tlb.VmStack", ts, in.class, st, nil, i%2 == 0)
 	}
 	r.End()
 	return sc.Err()
